@@ -205,15 +205,18 @@ def c26_runs(tier):
 
     def tt(params, bound, mode='plain', opts=None, budget=90):
         runs.append(McRun(B, 'timed', params, bound=bound, mode=mode, opts=opts or {}, budget=budget))
-    acts, whens = '0|1|2', '0|1|2|3|4'
-    # kImmediateInvoker: the call runs on the kicking thread (T0 for a task that is already due, else the scheduler thread)
-    for n, per, steady, delay in [(1, 0, 0, 0), (1, 0, 0, 300), (2, 0, 0, 0), (2, 0, 0, 300), (2, 1000, 0, 300), (3, 1000, 1, 300), (3, 0, 0, 0), (3, 1000, 0, 0)]:
-        fa = '|'.join(str(j) for j in range(0, n + 1))
-        tt(dict(pool=0, n=n, per=per, steady=steady, delay=delay, fa=fa, act=acts, when=whens), 2 if q else 3, budget=90 if q else 300)
+    acts, whens = '0|1|2', ('0|2|4' if q else '0|1|2|3|4')
     # ThreadPool(1): the call runs on the pool thread, three threads plus T0
     for n, per, steady, delay in [(1, 0, 0, 300), (2, 0, 0, 0), (2, 1000, 0, 300)] + ([] if q else [(1, 0, 0, 0), (3, 1000, 1, 300), (3, 0, 0, 0)]):
         fa = '|'.join(str(j) for j in range(0, min(n, 2) + 1))
         tt(dict(pool=1, n=n, per=per, steady=steady, delay=delay, fa=fa, act=acts, when='0|2|3|4'), 1, budget=120 if q else 300)
+    # kImmediateInvoker: the call runs on the kicking thread (T0 for a task that is already due, else the scheduler thread)
+    shapes = [(1, 0, 0, 300), (2, 0, 0, 0), (2, 1000, 0, 300), (3, 1000, 1, 300)]
+    if not q:
+        shapes += [(1, 0, 0, 0), (2, 0, 0, 300), (3, 0, 0, 0), (3, 1000, 0, 0)]
+    for n, per, steady, delay in shapes:
+        fa = '|'.join(str(j) for j in range(0, n + 1))
+        tt(dict(pool=0, n=n, per=per, steady=steady, delay=delay, fa=fa, act=acts, when=whens), 2 if q else 3, budget=90 if q else 300)
     if not q:
         tt(dict(pool=1, n=1, per=0, delay=300, fa=0, act='1|2', when='0|4'), 2, budget=600)
         tt(dict(pool=1, n=2, per=0, delay=0, fa='0|1', act='0|2', when='0|3'), 2, budget=600)
@@ -233,7 +236,7 @@ def c26_runs(tier):
 
 reg('C26', level='model_checking', runs=c26_runs, quick_budget_s=400, thorough_budget_s=1800,
     technique='stateless model checking of the real TimedTaskScheduler / TimedTask (private scheduler instance, its timing thread, kickOffTask, the wrapped call, cancel, ~TimedTask) under a virtual clock; ASan and TSan legs',
-    level_text='Backing schedulable kImmediateInvoker or ThreadPool(1); timesToRun 1..3, period 0 or 1 ms, normal/steady, first run already due (kicked off by schedule() on the caller) or 300 us ahead (kicked off by the scheduler thread); the function returns false at call j for every j; T0 either waits for all calls, or cancel()s, or destroys the task, at five positions (right after schedule(); after sleeping to the scheduled time; while the first call is inside the function; after it returned; when a kick-off has just taken its run from timesToRun); every interleaving with <=2 deviations for the immediate invoker (3 thorough) and <=1 for the pool (2 on two shapes in thorough), one shape with timers racing. Oracle inside the function: calls <= timesToRun, none after a false, none earlier than the first scheduled virtual time (10 us kick-off tolerance of the library allowed), none starts after cancel() returned, none starts or is in progress after ~TimedTask returned, function object alive for the whole call (canary; ASan in the asan legs); every expected call happens when nobody cancels (otherwise deadlock verdict).',
+    level_text='Backing schedulable kImmediateInvoker or ThreadPool(1); timesToRun 1..3, period 0 or 1 ms, normal/steady, first run already due (kicked off by schedule() on the caller) or 300 us ahead (kicked off by the scheduler thread); the function returns false at call j for every j; T0 either waits for all calls, or cancel()s, or destroys the task, at five positions (quick: three for the immediate invoker) (right after schedule(); after sleeping to the scheduled time; while the first call is inside the function; after it returned; when a kick-off has just taken its run from timesToRun); every interleaving with <=2 deviations for the immediate invoker (3 thorough) and <=1 for the pool (2 on two shapes in thorough), one shape with timers racing. Oracle inside the function: calls <= timesToRun, none after a false, none earlier than the first scheduled virtual time (10 us kick-off tolerance of the library allowed), none starts after cancel() returned, none starts or is in progress after ~TimedTask returned, function object alive for the whole call (canary; ASan in the asan legs); every expected call happens when nobody cancels (otherwise deadlock verdict).',
     level_note='SC interleavings, virtual monotone clock (dispenso::getTime() reads it). A window made only of plain code (between the wrapped call\'s cancelled check and the call of the function) contains no scheduling point and is not split; the TSan legs cover unsynchronised accesses there.',
     design_ref='DESIGN.md section 4, C26', assumptions=MC_ASSUME, rule=RULE,
     guards=[need_cover('timed_all_calls', 'timed_cancel', 'timed_cancel_before_first_call', 'timed_cancel_during_call', 'timed_destroy_during_call',
